@@ -57,7 +57,7 @@ impl Ctx {
         let sig = format!("{}:{}:{}", op.kind(), status, shape(u));
         self.rep.case(stream, &req, &model, &imp, true, &sig);
         let differs = model != imp;
-        if self.search && differs {
+        if self.search && (differs || std::env::var("VERIF_SEARCH_ALL").is_ok()) {
             let mut ops = prefix.to_vec();
             ops.push(op.clone());
             match &nu {
